@@ -274,16 +274,19 @@ def frameId (p : AProgram) (f : C26.Frame) : Nat := indexIn (definedFrames p) f
 def matchedFrames (p : AProgram) (i : Ast.Instruction) : Option C26.Matched :=
   C26.matchingFrames (c26Prog p) (toC26 i)
 
-/-- **what the default handler answers about instruction `i` of program `p`**, as `Sched.buildBlock` wants it -/
-def answersOf (p : AProgram) (i : Ast.Instruction) : Sched.Instr :=
+/-- the default handler's answers about instruction `i` of program `p`, with regions numbered by `rid` -/
+def answersWith (rid : String → Nat) (p : AProgram) (i : Ast.Instruction) : Sched.Instr :=
   let acc := accessNames p i
   { role := role i
     scheduled := isScheduled i
     memErr := acc.isNone
-    reads := (acc.map (·.1)).getD [] |>.map (regionId p)
-    writes := (acc.map (·.2.1)).getD [] |>.map (regionId p)
-    captures := (acc.map (·.2.2)).getD [] |>.map (regionId p)
+    reads := (acc.map (·.1)).getD [] |>.map rid
+    writes := (acc.map (·.2.1)).getD [] |>.map rid
+    captures := (acc.map (·.2.2)).getD [] |>.map rid
     frames := (matchedFrames p i).map fun m => (m.used.map (frameId p), m.blocked.map (frameId p)) }
+
+/-- **what the default handler answers about instruction `i` of program `p`**, as `Sched.buildBlock` wants it -/
+def answersOf (p : AProgram) (i : Ast.Instruction) : Sched.Instr := answersWith (regionId p) p i
 
 def schedBlock (p : AProgram) (b : ABlock) : Sched.Block :=
   ⟨b.instrs.map (answersOf p), b.term.map (answersOf p)⟩
@@ -354,6 +357,15 @@ def durDescOf (p : AProgram) : Ast.Instruction → Option Sched.DurDesc
   | .fence _ | .setFrequency _ | .setPhase _ | .setScale _ | .shiftFrequency _ | .shiftPhase _
   | .swapPhases _ => some .zero
   | _ => some .unknown
+
+/-- C25: the block of calibration-EXPANDED instructions (`BasicBlock::as_schedule` builds it and schedules it
+against the ORIGINAL program, control_flow_graph.rs:266-274); regions are numbered within the expanded block -/
+def expandedBlock (p : AProgram) (flat : List Ast.Instruction) (term : Option Ast.Instruction) : Sched.Block :=
+  let names : List String := (flat ++ term.toList).flatMap fun i =>
+    match accessNames p i with
+    | some (r, w, c) => r ++ w ++ c
+    | none => []
+  ⟨flat.map (answersWith (indexIn names) p), term.map (answersWith (indexIn names) p)⟩
 
 /-! ### scope -/
 
